@@ -119,7 +119,8 @@ PROPS = {
                             "C06_get_for_package", "C06_excluded", "C06_not_excluded",
                             "C06_no_cutoff_no_date_filter", "C06_error_flag", "C06_cutoff_strict",
                             "C06_no_creation_date_is_old", "C06_spec_okb_correct",
-                            "C06_order_free_equal_rank_refuted", "C06_registry_lockfile_respected"],
+                            "C06_order_free_equal_rank_refuted", "C06_registry_lockfile_respected",
+                            "C06_registry_resolved_not_below_lockfile", "C06_registry_judgement_holds"],
         "rule": ("selection-function level, direct calls to the public deno_graph::packages API. (a) EVERY registry "
                  "info made of <= 3 of the versions {0.9.0, 1.0.0, 1.1.0, 2.0.0-beta.1, 2.0.0}, each yanked or not and "
                  "created never/before/at/after the cutoff (5801 infos), x 3 option sets (no date / date / date with "
@@ -172,7 +173,7 @@ PROPS = {
                  "targets with the range of the import they were resolved from, is_dynamic, first type attribute, @deno-types text, number of "
                  "imports) must equal the model's; what a text resolves to comes from separate real runs on a module importing it alone; every other such case is a WHOLE declaration: random @ts-self-types, triple-slash path/types references, JSX import source (+ types), JSDoc imports and an x-typescript-types header are added to the analysis, and the types dependency plus the dependency map must equal the model's (Decl.declared_full)"),
         "assumptions": [
-            "stage B1 + registry stage B2: no npm resolution, no source-phase imports, no source maps, utf-8 sources",
+            "stage B1 + registry stage B2: no npm resolver (valid npm: specifiers are answered by the loader, as the builder does without one; malformed ones are error entries), jsr: specifiers either through the registry stage or passed through (BuildOptions::passthrough_jsr_specifiers: marked external at once, tags and malformed ones rejected), no source-phase imports, no source maps, utf-8 sources",
             "registry stream: the extracted model also judges 'nothing unreachable is present' on the graph of every alias-free world (reachability from the roots over redirects and recorded dependencies); known finding F-C01a (entries orphaned by a content load that fails after the embedded module info was followed) is reported as KNOWN-FINDING",
             "the loader is a function of its arguments",
         ],
